@@ -126,6 +126,15 @@ BOUNDARY_EXPRS = [
     "[0, 0, 0, 0, 0, 0, 0, s]", "[0, 0, 0, 0, 0, 0, 0, m]", "[0, 0, 0, 0, 0, 0, 0]", "[0, 0, 0, 0, 0, 0, 0, 0, 0]", "[b, y, x, -1, 256, 2 ** 10, 7 // 2, 1 / 2]",
     "not not x", "not (x and y)", "-(x if b else y)", "+ + x", "- - - x", "(x, y) < (y, x)", "[1] + [2]", "[1] * 2",
     "x + True", "True / 2", "True // 2", "False ** False", "1 < True", "b == 1", "b is True",
+    # around the size bound of folded integers (_MAX_CONST_BITS = 4096): predicted bits = bit_length(a) * b for **,
+    # bit_length(a) + b for <<, bit_length(a) + bit_length(b) for *; one below / at / one above, zero and negative operands
+    "1 << 4094", "1 << 4095", "1 << 4096", "2 ** 2047", "2 ** 2048", "2 ** 2049", "3 ** 2048", "3 ** 2049", "(1 << 2047) * (1 << 2047)",
+    "(1 << 2048) * (1 << 2047)", "-(1 << 2048) * (1 << 2047)", "x << 4093", "x << 4094", "x << 4096", "x ** 1365", "x ** 1366",
+    "True << 4095", "True << 4096", "b ** 5000", "0 << 5000", "1 ** 5000", "(-1) ** 4097", "0 * (1 << 4000)", "0 ** 5000",
+    "(1 << 4095) + (1 << 4095)", "((1 << 4095) + (1 << 4095)) * 2", "(1 << 4095) * 1", "(1 << 4094) * 1", "(1 << 4095) * 0", "7 << 0", "5000 ** 0",
+    "2 ** -5000", "1 << 4095 >> 4000", "(1 << 4095) // 3", "(1 << 4095) % 1000", "-(1 << 4095) & 255", "(1 << 4095) | 1", "(1 << 4095) ^ -1",
+    "(1 << 4095) - (1 << 4095)", "-(1 << 4095) - (1 << 4095)", "x * (1 << 4093)", "x * (1 << 4094)",
+    "2 ** 12", "2 ** 2 ** 3", "2 ** 2 ** 12", "[1 << 4095, 1 << 4096]", "max(1 << 4095, 2)", "1 if 1 << 4096 else 2",
 ]
 ENV_POOL = [
     {"x": 5, "y": 2.5, "b": True, "s": "ab", "l": [1, 2, 3], "m": MARK},
